@@ -194,6 +194,12 @@ def szCmd (l : Limits) (ctor : String) (a : List Int) : Option SzR :=
   | "keys", [n] => some (andThen (mapInsertMany 0 n.toNat l.maxMapping) fun c => mapKeys c l.maxArray)
   | "values", [n] => some (andThen (mapInsertMany 0 n.toNat l.maxMapping) fun c => mapKeys c l.maxArray)
   | "allocate_mapping", [n] => some (allocateMapping n)
+  | "sprintf_pad", [w, n] =>
+    -- sprintf ("%*s", w, s): padded to the field width; the pad goes through the same bounded buffer
+    some (andThen (str n) fun p =>
+      -- no padding when the string fills the field: the string is the first chunk (any size, see sprintfAdd)
+      if w.toNat ≤ p then andThen (sprintfAdd 0 p) fun r => sprintfFinish r l.maxString
+      else if w.toNat > ushrtMax then .err else sprintfFinish w.toNat l.maxString)
   | "sprintf", [x, y] =>
     some (andThen (str x) fun p => andThen (str y) fun q => andThen (sprintfAdd 0 p) fun real => andThen (sprintfAdd real q) fun r => sprintfFinish r l.maxString)
   | _, _ => none
